@@ -1088,3 +1088,57 @@ pub fn gen_c19(rng: &mut Rng, d: &mut Dist, _idx: u64) -> Vec<String> {
     }
     out
 }
+
+/// C05: batches with duplicate partitions, interleaved topics, unknown destinations at any position, leaderless
+/// partitions, acks in {0,1,-1}, all codecs, 1-3 brokers; via the client and via the producer.
+pub fn gen_c05(rng: &mut Rng, d: &mut Dist, _idx: u64) -> Vec<String> {
+    let leaderless = rng.chance(1, 4);
+    let cl = Cluster::random(rng, 4, leaderless);
+    let mut out = cl.setup_lines();
+    bump(d, &format!("brokers-{}", cl.brokers.len()));
+    if rng.chance(1, 3) {
+        out.push(format!("ORDER {}", rng.pick(&["rev", "rot 1", "rot 2"])));
+    }
+    out.push(format!("OP client_new {}", cl.bootstrap()));
+    out.push("OP c load_metadata_all".into());
+    let mut uniq = 0u32;
+    let ncalls = 1 + rng.below(3);
+    for _ in 0..ncalls {
+        let comp = rng.below(3);
+        out.push(format!("OP c set compression {}", comp));
+        bump(d, &format!("codec-{}", comp));
+        let acks = *rng.pick(&[0i64, 1, 1, -1]);
+        bump(d, &format!("acks-{}", acks));
+        let n = 1 + rng.below(12);
+        let mut line = format!("OP c produce {} {} 0", acks, 1 + rng.below(30));
+        let mut unknown = false;
+        for _ in 0..n {
+            uniq += 1;
+            let (t, p) = if rng.chance(1, 30) {
+                unknown = true;
+                ("ghost".to_string(), 0i64)
+            } else {
+                let t = rng.pick(&cl.topics);
+                let np = t.leaders.len() as i64;
+                let p = if rng.chance(1, 40) {
+                    unknown = true;
+                    np
+                } else {
+                    rng.range(0, np - 1)
+                };
+                if p < np && t.leaders[p as usize] < 0 {
+                    unknown = true;
+                }
+                (t.name.clone(), p)
+            };
+            let k = if rng.chance(1, 2) { None } else { Some(rng.bytes(2)) };
+            let mut v = uniq.to_be_bytes().to_vec();
+            let extra = rng.below(4) as usize;
+            v.extend(rng.bytes(extra));
+            line.push_str(&format!(" {} {} {} {}", h(&t), p, opt_tok(&k), hex(&v)));
+        }
+        bump(d, if unknown { "batch-with-unknown-destination" } else { "batch-all-known" });
+        out.push(line);
+    }
+    out
+}
